@@ -8,9 +8,51 @@ theorem Phases.set_self [DecidableEq K] (ph : Phases K) (k : K) : ph.set k k = .
 theorem Phases.set_other [DecidableEq K] (ph : Phases K) {k k' : K} (h : k' ≠ k) : ph.set k k' = ph k' := by
   simp [Phases.set, h]
 
+theorem Phases.le_set [DecidableEq K] (ph : Phases K) (k : K) : ∀ k', ph k' = .canon → ph.set k k' = .canon := by
+  intro k' h
+  by_cases hk : k' = k
+  · subst hk; exact Phases.set_self _ _
+  · rw [Phases.set_other _ hk]; exact h
+
+/-- more knowledge (more cells in phase `canon`) never hurts -/
+theorem Safe.mono [DecidableEq K] {free : K → Prop} {good : K → V → Prop} {c1 : K → V} {acc : R → Prop}
+    {p : Prog K V R} {ph : Phases K} (h : Safe free good c1 acc ph p) :
+    ∀ ph' : Phases K, (∀ k, ph k = .canon → ph' k = .canon) → Safe free good c1 acc ph' p := by
+  induction h with
+  | ret ha => intro ph' _; exact Safe.ret ha
+  | @read ph k cont hnf hany hcan ih1 ih2 =>
+    intro ph' hle
+    apply Safe.read hnf
+    · intro hph v hg hne
+      have : ph k = .any := by
+        cases hk : ph k with
+        | any => rfl
+        | canon => rw [hle k hk] at hph; cases hph
+      exact ih1 this v hg hne ph' hle
+    · apply ih2
+      intro k' hk'
+      by_cases hkk : k' = k
+      · subst hkk; exact Phases.set_self _ _
+      · rw [Phases.set_other _ hkk] at hk' ⊢; exact hle k' hk'
+  | @write ph k cont hnf hk ih =>
+    intro ph' hle
+    apply Safe.write hnf
+    apply ih
+    intro k' hk'
+    by_cases hkk : k' = k
+    · subst hkk; exact Phases.set_self _ _
+    · rw [Phases.set_other _ hkk] at hk' ⊢; exact hle k' hk'
+  | @readFree ph k cont hf hall ih =>
+    intro ph' hle
+    exact Safe.readFree hf (fun v hv => ih v hv ph' hle)
+  | @writeFree ph k v cont hf hg hk ih =>
+    intro ph' hle
+    exact Safe.writeFree hf hg (ih ph' hle)
+
 /-- **inv_step**: one step of any thread preserves the invariant -/
-theorem inv_step [DecidableEq K] [DecidableEq V] (good : K → V → Prop) (c1 : K → V) (hc1 : ∀ k, good k (c1 k))
-    (c : Cfg K V R) (i : Nat) (h : Inv good c1 c) : Inv good c1 (step c1 c i) := by
+theorem inv_step [DecidableEq K] [DecidableEq V] (free : K → Prop) (good : K → V → Prop) (c1 : K → V)
+    (hc1 : ∀ k, ¬ free k → good k (c1 k))
+    (c : Cfg K V R) (i : Nat) (h : Inv free good c1 c) : Inv free good c1 (step c1 c i) := by
   obtain ⟨hg, hs, hp⟩ := h
   unfold step
   cases hti : c.thr[i]? with
@@ -24,64 +66,104 @@ theorem inv_step [DecidableEq K] [DecidableEq V] (good : K → V → Prop) (c1 :
     | ret r => exact ⟨hg, hs, hp⟩
     | read k cont =>
       simp only
-      refine ⟨hg, ?_, ?_⟩
-      · intro t' ht'
-        rcases List.mem_or_eq_of_mem_set ht' with h1 | h1
-        · exact hs t' h1
-        · subst h1
-          simp only
-          cases hst with
-          | read hany hcan =>
+      cases hst with
+      | read hnf hany hcan =>
+        refine ⟨hg, ?_, ?_⟩
+        · intro t' ht'
+          rcases List.mem_or_eq_of_mem_set ht' with h1 | h1
+          · exact hs t' h1
+          · subst h1
+            simp only
             by_cases hcell : c.heap k = c1 k
             · simp only [hcell, if_true]; exact hcan
             · simp only [hcell, if_false]
               cases hph : ph k with
               | any => exact hany hph _ (hg k) hcell
-              | canon => exact absurd (hp k ⟨_, htmem, hph⟩) hcell
-      · intro k' ⟨t', ht', hph⟩
-        rcases List.mem_or_eq_of_mem_set ht' with h1 | h1
-        · exact hp k' ⟨t', h1, hph⟩
-        · subst h1
-          simp only at hph
-          by_cases hcell : c.heap k = c1 k
-          · simp only [hcell, if_true] at hph
-            by_cases hk : k' = k
-            · subst hk; exact hcell
+              | canon => exact absurd (hp k hnf ⟨_, htmem, hph⟩) hcell
+        · intro k' hnf' ⟨t', ht', hph⟩
+          rcases List.mem_or_eq_of_mem_set ht' with h1 | h1
+          · exact hp k' hnf' ⟨t', h1, hph⟩
+          · subst h1
+            simp only at hph
+            by_cases hcell : c.heap k = c1 k
+            · simp only [hcell, if_true] at hph
+              by_cases hk : k' = k
+              · subst hk; exact hcell
+              · rw [Phases.set_other _ hk] at hph
+                exact hp k' hnf' ⟨_, htmem, hph⟩
+            · simp only [hcell, if_false] at hph
+              exact hp k' hnf' ⟨_, htmem, hph⟩
+      | readFree hf hall =>
+        refine ⟨hg, ?_, ?_⟩
+        · intro t' ht'
+          rcases List.mem_or_eq_of_mem_set ht' with h1 | h1
+          · exact hs t' h1
+          · subst h1
+            simp only
+            have hsafe := hall _ (hg k)
+            split
+            · exact hsafe.mono _ (Phases.le_set _ _)
+            · exact hsafe
+        · intro k' hnf' ⟨t', ht', hph⟩
+          rcases List.mem_or_eq_of_mem_set ht' with h1 | h1
+          · exact hp k' hnf' ⟨t', h1, hph⟩
+          · subst h1
+            simp only at hph
+            have hk : k' ≠ k := fun e => hnf' (e ▸ hf)
+            split at hph
             · rw [Phases.set_other _ hk] at hph
-              exact hp k' ⟨_, htmem, hph⟩
-          · simp only [hcell, if_false] at hph
-            exact hp k' ⟨_, htmem, hph⟩
+              exact hp k' hnf' ⟨_, htmem, hph⟩
+            · exact hp k' hnf' ⟨_, htmem, hph⟩
     | write k v cont =>
       simp only
       cases hst with
-      | write hk =>
+      | write hnf hk =>
         refine ⟨?_, ?_, ?_⟩
         · intro k'
           by_cases hkk : k' = k
-          · subst hkk; simp only [updHeap, if_true]; exact hc1 _
+          · subst hkk; simp only [updHeap, if_true]; exact hc1 _ hnf
           · simp only [updHeap, hkk, if_false]; exact hg k'
         · intro t' ht'
           rcases List.mem_or_eq_of_mem_set ht' with h1 | h1
           · exact hs t' h1
           · subst h1; exact hk
-        · intro k' ⟨t', ht', hph⟩
+        · intro k' hnf' ⟨t', ht', hph⟩
           by_cases hkk : k' = k
           · subst hkk; simp [updHeap]
           · simp only [updHeap, hkk, if_false]
             rcases List.mem_or_eq_of_mem_set ht' with h1 | h1
-            · exact hp k' ⟨t', h1, hph⟩
+            · exact hp k' hnf' ⟨t', h1, hph⟩
             · subst h1
               simp only at hph
               rw [Phases.set_other _ hkk] at hph
-              exact hp k' ⟨_, htmem, hph⟩
+              exact hp k' hnf' ⟨_, htmem, hph⟩
+      | writeFree hf hgv hk =>
+        refine ⟨?_, ?_, ?_⟩
+        · intro k'
+          by_cases hkk : k' = k
+          · subst hkk; simp only [updHeap, if_true]; exact hgv
+          · simp only [updHeap, hkk, if_false]; exact hg k'
+        · intro t' ht'
+          rcases List.mem_or_eq_of_mem_set ht' with h1 | h1
+          · exact hs t' h1
+          · subst h1; exact hk.mono _ (Phases.le_set _ _)
+        · intro k' hnf' ⟨t', ht', hph⟩
+          have hkk : k' ≠ k := fun e => hnf' (e ▸ hf)
+          simp only [updHeap, hkk, if_false]
+          rcases List.mem_or_eq_of_mem_set ht' with h1 | h1
+          · exact hp k' hnf' ⟨t', h1, hph⟩
+          · subst h1
+            simp only at hph
+            rw [Phases.set_other _ hkk] at hph
+            exact hp k' hnf' ⟨_, htmem, hph⟩
 
 /-- **inv_all_schedules**: the invariant holds after ANY schedule of ANY number of threads -/
-theorem inv_all_schedules [DecidableEq K] [DecidableEq V] (good : K → V → Prop) (c1 : K → V)
-    (hc1 : ∀ k, good k (c1 k)) (sched : List Nat) :
-    ∀ c : Cfg K V R, Inv good c1 c → Inv good c1 (run c1 c sched) := by
+theorem inv_all_schedules [DecidableEq K] [DecidableEq V] (free : K → Prop) (good : K → V → Prop) (c1 : K → V)
+    (hc1 : ∀ k, ¬ free k → good k (c1 k)) (sched : List Nat) :
+    ∀ c : Cfg K V R, Inv free good c1 c → Inv free good c1 (run c1 c sched) := by
   induction sched with
   | nil => intro c h; exact h
-  | cons i rest ih => intro c h; exact ih _ (inv_step good c1 hc1 c i h)
+  | cons i rest ih => intro c h; exact ih _ (inv_step free good c1 hc1 c i h)
 
 /-- the acceptance predicate of a thread never changes -/
 theorem step_acc [DecidableEq K] [DecidableEq V] (c1 : K → V) (c : Cfg K V R) (i j : Nat) :
@@ -116,11 +198,11 @@ theorem run_acc [DecidableEq K] [DecidableEq V] (c1 : K → V) (sched : List Nat
 
 /-- **linearizable** (result half): under any schedule, a thread that has returned has returned a result accepted by
 the predicate it started with -/
-theorem finished_result_ok [DecidableEq K] [DecidableEq V] (good : K → V → Prop) (c1 : K → V)
-    (hc1 : ∀ k, good k (c1 k)) (c : Cfg K V R) (h : Inv good c1 c) (sched : List Nat) (j : Nat)
+theorem finished_result_ok [DecidableEq K] [DecidableEq V] (free : K → Prop) (good : K → V → Prop) (c1 : K → V)
+    (hc1 : ∀ k, ¬ free k → good k (c1 k)) (c : Cfg K V R) (h : Inv free good c1 c) (sched : List Nat) (j : Nat)
     (t0 t : Thread K V R) (r : R) (h0 : c.thr[j]? = some t0) (ht : (run c1 c sched).thr[j]? = some t)
     (hr : t.prog = .ret r) : t0.acc r := by
-  have hinv := inv_all_schedules good c1 hc1 sched c h
+  have hinv := inv_all_schedules free good c1 hc1 sched c h
   have hs := hinv.2.1 t (List.mem_of_getElem? ht)
   have hacc := run_acc c1 sched c j
   rw [h0, ht] at hacc
@@ -129,74 +211,45 @@ theorem finished_result_ok [DecidableEq K] [DecidableEq V] (good : K → V → P
   cases hs with
   | ret ha => rw [← hacc]; exact ha
 
-/-- every value ever stored in a cell is good, and once a thread has seen or written the canonical value of a cell
-the cell keeps it (stability of `z = 1` / of the complete table) -/
-theorem canon_stable [DecidableEq K] [DecidableEq V] (good : K → V → Prop) (c1 : K → V)
-    (hc1 : ∀ k, good k (c1 k)) (c : Cfg K V R) (h : Inv good c1 c) (sched : List Nat) (k : K) :
+/-- every value ever stored in a cell is good, and once a thread has seen or written the canonical value of a monotone
+cell the cell keeps it (stability of `z = 1` / of the complete table) -/
+theorem canon_stable [DecidableEq K] [DecidableEq V] (free : K → Prop) (good : K → V → Prop) (c1 : K → V)
+    (hc1 : ∀ k, ¬ free k → good k (c1 k)) (c : Cfg K V R) (h : Inv free good c1 c) (sched : List Nat) (k : K) :
     good k ((run c1 c sched).heap k) ∧
-    ((∃ t ∈ (run c1 c sched).thr, t.ph k = .canon) → (run c1 c sched).heap k = c1 k) :=
-  ⟨(inv_all_schedules good c1 hc1 sched c h).1 k, (inv_all_schedules good c1 hc1 sched c h).2.2 k⟩
-
-/-- more knowledge (more cells in phase `canon`) never hurts -/
-theorem Safe.mono [DecidableEq K] {good : K → V → Prop} {c1 : K → V} {acc : R → Prop} {p : Prog K V R}
-    {ph : Phases K} (h : Safe good c1 acc ph p) :
-    ∀ ph' : Phases K, (∀ k, ph k = .canon → ph' k = .canon) → Safe good c1 acc ph' p := by
-  induction h with
-  | ret ha => intro ph' _; exact Safe.ret ha
-  | @read ph k cont hany hcan ih1 ih2 =>
-    intro ph' hle
-    apply Safe.read
-    · intro hph v hg hne
-      have : ph k = .any := by
-        cases hk : ph k with
-        | any => rfl
-        | canon => rw [hle k hk] at hph; cases hph
-      exact ih1 this v hg hne ph' hle
-    · apply ih2
-      intro k' hk'
-      by_cases hkk : k' = k
-      · subst hkk; exact Phases.set_self _ _
-      · rw [Phases.set_other _ hkk] at hk' ⊢; exact hle k' hk'
-  | @write ph k cont hk ih =>
-    intro ph' hle
-    apply Safe.write
-    apply ih
-    intro k' hk'
-    by_cases hkk : k' = k
-    · subst hkk; exact Phases.set_self _ _
-    · rw [Phases.set_other _ hkk] at hk' ⊢; exact hle k' hk'
+    (¬ free k → (∃ t ∈ (run c1 c sched).thr, t.ph k = .canon) → (run c1 c sched).heap k = c1 k) :=
+  ⟨(inv_all_schedules free good c1 hc1 sched c h).1 k, (inv_all_schedules free good c1 hc1 sched c h).2.2 k⟩
 
 /-- **composition**: if `p` is safe and every accepted result is continued safely (whatever has become canonical in
 between), then `p ; K` is safe -/
-theorem Safe.bind [DecidableEq K] {S : Type} {good : K → V → Prop} {c1 : K → V} {acc : R → Prop} {acc' : S → Prop}
-    {p : Prog K V R} {ph : Phases K} (h : Safe good c1 acc ph p) (f : R → Prog K V S)
-    (hf : ∀ r (ph' : Phases K), acc r → (∀ k, ph k = .canon → ph' k = .canon) → Safe good c1 acc' ph' (f r)) :
-    Safe good c1 acc' ph (p.bind f) := by
+theorem Safe.bind [DecidableEq K] {S : Type} {free : K → Prop} {good : K → V → Prop} {c1 : K → V} {acc : R → Prop}
+    {acc' : S → Prop} {p : Prog K V R} {ph : Phases K} (h : Safe free good c1 acc ph p) (f : R → Prog K V S)
+    (hf : ∀ r (ph' : Phases K), acc r → (∀ k, ph k = .canon → ph' k = .canon) → Safe free good c1 acc' ph' (f r)) :
+    Safe free good c1 acc' ph (p.bind f) := by
   induction h with
   | ret ha => exact hf _ _ ha (fun _ h => h)
-  | @read ph k cont hany hcan ih1 ih2 =>
+  | @read ph k cont hnf hany hcan ih1 ih2 =>
     simp only [Prog.bind]
-    apply Safe.read
+    apply Safe.read hnf
     · intro hph v hg hne
       exact ih1 hph v hg hne hf
     · apply ih2
       intro r ph' ha hle
       apply hf r ph' ha
       intro k' hk'
-      apply hle
-      by_cases hkk : k' = k
-      · subst hkk; exact Phases.set_self _ _
-      · rw [Phases.set_other _ hkk]; exact hk'
-  | @write ph k cont hk ih =>
+      exact hle k' (Phases.le_set _ _ k' hk')
+  | @write ph k cont hnf hk ih =>
     simp only [Prog.bind]
-    apply Safe.write
+    apply Safe.write hnf
     apply ih
     intro r ph' ha hle
     apply hf r ph' ha
     intro k' hk'
-    apply hle
-    by_cases hkk : k' = k
-    · subst hkk; exact Phases.set_self _ _
-    · rw [Phases.set_other _ hkk]; exact hk'
+    exact hle k' (Phases.le_set _ _ k' hk')
+  | @readFree ph k cont hfr hall ih =>
+    simp only [Prog.bind]
+    exact Safe.readFree hfr (fun v hv => ih v hv hf)
+  | @writeFree ph k v cont hfr hg hk ih =>
+    simp only [Prog.bind]
+    exact Safe.writeFree hfr hg (ih hf)
 
 end Threads
